@@ -572,7 +572,9 @@ def ft4(F, R):
     for arm, want in (("Fat16", {0xFFFFFFF6: 0xFFF6, 0xFFFFFFF7: 0xFFF7, 0: 0, 0xFFFFFFFF: 0xFFFF}), ("Fat32", {0xFFFFFFF6: 0x0FFFFFF6, 0xFFFFFFF7: 0x0FFFFFF7, 0: 0})):
         got = {}
         other_ok = False
-        wr = [(b, t) for b, t in fn.calls() if b in arms[arm] and (callee_of(t) or "").endswith(("ByteOrder::write_u16", "ByteOrder::write_u32"))]
+        # (on the function as it is for this FAT type: per-type variables such as an entry width are constants there)
+        fn0, fn = fn, fat_views(fn)[arm]
+        wr = [(b, t) for b, t in fn.calls() if (callee_of(t) or "").endswith(("ByteOrder::write_u16", "ByteOrder::write_u32"))]
         evs = []
         for b, t in wr:
             for q in subterms(fn.term_of_operand(t["args"][1], b)):
@@ -599,6 +601,7 @@ def ft4(F, R):
                     other_ok = other_all
                 elif len(vals) == 1 and vals[0][0] == "c":
                     got[key] = vals[0][1]
+        fn = fn0
         R.require(got == want and other_ok, fn, arm + ":special-values", "%s special-value table is %s, expected %s (and pass-through otherwise)" % (arm, {hex(k): hex(v) for k, v in got.items()}, {hex(k): hex(v) for k, v in want.items()}), fn.loc(min(arms[arm])) if arms[arm] else fn.loc(0))
 
 
